@@ -21,6 +21,14 @@ package graph
 //@   use triStep(a-1)
 //@   pattern tri(a), tri(b)
 
+// the same for a row index written as i+1 (the code writes tri(i+1) as (i+1)*i/2)
+//@ lemma triMonoS(i int, b int)
+//@   requires 0 <= i && i + 1 < b
+//@   ensures (i+1) * i / 2 + i + 1 <= tri(b)
+//@   by smt using triMono
+//@   use triStep(i-1)
+//@   pattern (i+1) * i / 2, tri(b)
+
 // abstract view of a dense graph
 //@ pred sizesDense(g *DenseGraph) = 0 <= g.NumberOfVertices && g.NumberOfVertices <= 16777216 && len(g.Edges) == tri(g.NumberOfVertices) && len(g.DegreeSequence) == g.NumberOfVertices
 //@ pred edgeD(g *DenseGraph, i int, j int) = (i < j ? g.Edges[tri(j)+i] > 0 : (j < i ? g.Edges[tri(i)+j] > 0 : false))
@@ -179,3 +187,48 @@ package graph
 //@     use triStep(j-3)
 //@     use triStep(v-1)
 //@     decreases g.NumberOfVertices - j
+
+// ---- named families (C06): sizes and the edge relation of the definition are
+// proved; the cached counts (M, Degrees) of these hand-filled structs are
+// covered by the bounded stand-in graph:constructors.
+
+//@ func CompleteGraph
+//@   requires 0 <= n && n <= 16777216
+//@   ensures fresh(result) && sizesDense(result) && result.NumberOfVertices == n
+//@   ensures forall k in 0..tri(n): result.Edges[k] == 1
+//@   loop 1
+//@     invariant -1 <= rangeindex && (rangeindex < len(degrees) || (len(degrees) == 0 && rangeindex == -1)) && len(degrees) == n && len(edges) == tri(n)
+//@     decreases len(degrees) - rangeindex
+//@   loop 2
+//@     invariant 0 <= i && i <= len(edges) && len(degrees) == n && len(edges) == tri(n)
+//@     invariant forall k in 0..i: edges[k] == 1
+//@     decreases len(edges) - i
+
+// Path: i ~ i+1
+//@ func Path
+//@   requires 0 <= n && n <= 16777216
+//@   ensures fresh(result) && sizesDense(result) && result.NumberOfVertices == n
+//@   ensures forall b in 0..n: forall a in 0..b: result.Edges[tri(b)+a] > 0 <==> b == a + 1
+//@   opt lemmas=triMono,triMonoS
+//@   loop 1
+//@     invariant 0 <= i && (i <= n-1 || (n == 0 && i == 0)) && len(edges) == tri(n)
+//@     invariant forall b in 0..n: forall a in 0..b: edges[tri(b)+a] > 0 <==> (b == a + 1 && a < i)
+//@     use triStep(i-1)
+//@     decreases n - 1 - i
+//@   loop 2
+//@     invariant 1 <= i && len(degrees) == n && n > 0
+//@     decreases n - 1 - i
+
+// Star: 0 ~ i for i >= 1
+//@ func Star
+//@   requires 0 <= n && n <= 16777216
+//@   ensures fresh(result) && sizesDense(result) && result.NumberOfVertices == n
+//@   ensures forall b in 0..n: forall a in 0..b: result.Edges[tri(b)+a] > 0 <==> a == 0
+//@   opt lemmas=triMono,triInj
+//@   loop 1
+//@     invariant 1 <= i && (i <= n || (n == 0 && i == 1)) && len(edges) == tri(n)
+//@     invariant forall b in 0..n: forall a in 0..b: edges[tri(b)+a] > 0 <==> (a == 0 && b < i)
+//@     decreases n - i
+//@   loop 2
+//@     invariant 1 <= i && len(degrees) == n && n > 0
+//@     decreases n - i
